@@ -54,7 +54,10 @@ def mesh_f32(m):
     return out
 
 
-def grid_from_mesh(m, width=None, extra=None, layout="C"):
+CONVENTIONS = [(INT_FILL, 0), (INT_FILL, 0), (-1, 0), (-1, 1), (0, 1), (999999, 0)]
+
+
+def grid_from_mesh(m, width=None, extra=None, layout="C", convention=None):
     """Grid via the explicit-topology constructor with standard-form inputs (fresh arrays).  A mesh made by mesh_f32 hands over
     its float32 coordinate arrays."""
     if getattr(m, "lonlat32", None) is not None:
@@ -63,11 +66,24 @@ def grid_from_mesh(m, width=None, extra=None, layout="C"):
         lon, lat = m.lonlat()
     if __import__("os").environ.get("UXMON_F32_EXPERIMENT") and getattr(m, "lonlat32", None) is None:
         lon, lat = np.asarray(lon, dtype=np.float32), np.asarray(lat, dtype=np.float32)
-    conn = with_layout(m.padded(width=width), layout)
-    kw = {k: with_layout(v, layout) for k, v in dict(extra or {}).items()}
+    fillv, start = convention if convention is not None else (INT_FILL, 0)
+    conn = m.padded(width=width)
+    extra = dict(extra or {})
+    if (fillv, start) != (INT_FILL, 0):
+        # the caller's own index convention (one-based, padded with 0 / -1 ...) for every table handed over
+        def conv(t):
+            t = np.asarray(t)
+            out = t.astype(np.int64) + start
+            out[t == INT_FILL] = fillv
+            return out
+
+        conn = conv(conn)
+        extra = {k: (conv(v) if k.endswith("_connectivity") else v) for k, v in extra.items()}
+    conn = with_layout(conn, layout)
+    kw = {k: with_layout(v, layout) for k, v in extra.items()}
     return ux().Grid.from_topology(
         node_lon=with_layout(lon, "strided" if layout == "strided" else "C"), node_lat=with_layout(lat, "strided" if layout == "strided" else "C"),
-        face_node_connectivity=conn, fill_value=INT_FILL, start_index=0, **kw
+        face_node_connectivity=conn, fill_value=fillv, start_index=start, **kw
     )
 
 
